@@ -35,11 +35,90 @@ func (i *ocItem) Clone() onchangemap.Item[int, ocID] {
 const ocIDs = 5
 
 type ocMachine struct {
-	real       *onchangemap.OnChangeMap[int, ocID, *ocItem]
+	real    *onchangemap.OnChangeMap[int, ocID, *ocItem]
 	model   map[int]int
 	mask    string // which callbacks are configured: c(hanged) a(dded) m(odified) d(eleted), '-' = not configured
 	enabled bool
 	log     []string
+	// discipline 1: callback arguments are held by the consumer (checked after the call returned and over the following steps)
+	cbHeld  []ocHeldArg
+	watches []*ocWatch // item pointers handed to item callbacks, with the value they must show
+}
+
+// ocHeldArg is one callback argument kept by the consumer.
+type ocHeldArg struct {
+	name     string
+	same     func() string
+	scribble func(kind int) // nil: the object is shared with the map by design (stored item), it is only watched
+}
+
+// ocWatch: an item pointer a callback received. The stored item is handed out by design, so its value follows the writes the
+// harness itself makes through the very same pointer (Modify's callback); nothing else may change it.
+type ocWatch struct {
+	p       *ocItem
+	id, val int
+}
+
+// wrote is called by the harness's Modify callback after it changed the item it was handed.
+func (m *ocMachine) wrote(p *ocItem) {
+	for _, w := range m.watches {
+		if w.p == p {
+			w.val = p.val
+		}
+	}
+}
+
+func (m *ocMachine) holdItemArg(kind string, it *ocItem) {
+	w := &ocWatch{p: it, id: int(it.id), val: it.val}
+	m.watches = append(m.watches, w)
+	if len(m.watches) > 24 {
+		m.watches = m.watches[len(m.watches)-24:]
+	}
+	h := ocHeldArg{name: kind + "-callback-item", same: func() string {
+		if int(w.p.id) != w.id || w.p.val != w.val {
+			return fmt.Sprintf("item %d=%d handed to the %s callback reads %d=%d now", w.id, w.val, kind, w.p.id, w.p.val)
+		}
+		return ""
+	}}
+	if kind == "deleted" { // the map gave the item up: the consumer may do with it what it likes
+		h.scribble = func(k int) { w.p.val = heldGarbage - k; m.wrote(w.p) }
+	}
+	m.cbHeld = append(m.cbHeld, h)
+}
+
+func (m *ocMachine) holdSliceArg(items []*ocItem) {
+	cp := append([]*ocItem(nil), items...)
+	m.cbHeld = append(m.cbHeld, ocHeldArg{name: "changed-callback-slice", same: func() string {
+		if len(items) != len(cp) {
+			return fmt.Sprintf("the slice handed to the changed callback had %d items, has %d now", len(cp), len(items))
+		}
+		for i := range cp {
+			if items[i] != cp[i] {
+				return fmt.Sprintf("element %d of the slice handed to the changed callback is another item now", i)
+			}
+		}
+		return ""
+	}, scribble: func(k int) {
+		switch k {
+		case 0:
+			for i, j := 0, len(items)-1; i < j; i, j = i+1, j-1 {
+				items[i], items[j] = items[j], items[i]
+			}
+		case 1:
+			for i := range items {
+				items[i] = nil
+			}
+		default:
+			if len(items) > 0 {
+				items[0] = &ocItem{id: heldGarbage, val: heldGarbage}
+			}
+		}
+		ext := items[:cap(items)]
+		for i := len(items); i < len(ext); i++ {
+			ext[i] = &ocItem{id: heldGarbage, val: heldGarbage}
+		}
+		cp = append(cp[:0], items...)
+	}})
 }
 
 func (m *ocMachine) has(kind byte) bool { return strings.IndexByte(m.mask, kind) >= 0 }
@@ -84,24 +163,28 @@ func init() {
 			if m.has('c') {
 				opts = append(opts, onchangemap.WithChangedCallback[int, ocID](func(items []*ocItem) error {
 					m.log = append(m.log, "changed:"+ocSnapshot(items))
+					m.holdSliceArg(items)
 					return nil
 				}))
 			}
 			if m.has('a') {
 				opts = append(opts, onchangemap.WithItemAddedCallback[int, ocID](func(it *ocItem) error {
 					m.log = append(m.log, fmt.Sprintf("added:%d=%d", it.id, it.val))
+					m.holdItemArg("added", it)
 					return nil
 				}))
 			}
 			if m.has('m') {
 				opts = append(opts, onchangemap.WithItemModifiedCallback[int, ocID](func(it *ocItem) error {
 					m.log = append(m.log, fmt.Sprintf("modified:%d=%d", it.id, it.val))
+					m.holdItemArg("modified", it)
 					return nil
 				}))
 			}
 			if m.has('d') {
 				opts = append(opts, onchangemap.WithItemDeletedCallback[int, ocID](func(it *ocItem) error {
 					m.log = append(m.log, fmt.Sprintf("deleted:%d=%d", it.id, it.val))
+					m.holdItemArg("deleted", it)
 					return nil
 				}))
 			}
@@ -167,6 +250,7 @@ func (m *ocMachine) step(x *hx, o op) {
 	id := o.arg(0)
 	cur, has := m.model[id]
 	m.log = m.log[:0]
+	m.cbHeld = m.cbHeld[:0]
 	var want []string
 	switch o.N {
 	case "Add":
@@ -188,6 +272,7 @@ func (m *ocMachine) step(x *hx, o op) {
 			}
 			if accept {
 				it.val += delta
+				m.wrote(it)
 			}
 			return accept
 		})
@@ -266,6 +351,21 @@ func (m *ocMachine) step(x *hx, o op) {
 		return
 	}
 	m.log = m.log[:0]
+	// the callback arguments are held by their consumer: unchanged after the call returned, then held over the following steps
+	for _, h := range m.cbHeld {
+		if msg := h.same(); msg != "" {
+			x.fail(h.name+"-held-argument-changed", "an argument kept by a callback changed before %s returned: %s", o.N, msg)
+			return
+		}
+		h := h
+		x.note("held_callback_arguments")
+		holdCustom(x, h.name, h.same, func(k int) {
+			if h.scribble != nil {
+				h.scribble(k)
+			}
+		})
+	}
+	m.cbHeld = m.cbHeld[:0]
 	all := m.real.All()
 	am := map[int]int{}
 	for k, it := range all {
